@@ -150,10 +150,64 @@ def run(eng, ctx):
             if witness is None:
                 cons = [e for e in body_effects if e.kind == "call" and (e.term[2][0] == "attr" and e.term[2][2] in ("_recv", "read", "readline", "recv") or is_self_call(e.term, eng.socket_receiver.split(".")[-1]))]
                 exits = [e for e in body_effects if e.kind == "return"] + [st for k, st in info.get("ends", []) if k == "break"]
-                if cons and exits:
+                if cons and (exits or info.get("test") is not None):
                     def dep_on_cons(gs):
                         return any(any(c == x.term or (c[0] == "cmp" and (x.term in (c[2], c[3]) or (c[2][0] == "call" and c[2][3] and c[2][3][0] == x.term) or (c[2][0] == "slice" and c[2][1] == x.term))) for x in cons) for c, _ in gs)
-                    if any(dep_on_cons(getattr(e, "guards", ())) for e in exits):
+                    import operator as _op
+
+                    _ops = {"==": _op.eq, "!=": _op.ne, "<": _op.lt, "<=": _op.le, ">": _op.gt, ">=": _op.ge}
+
+                    def when_empty(c):
+                        """Truth of the test `c` when a consumer returned nothing (b"" / False); None when it does not say."""
+                        for x in cons:
+                            t = x.term
+                            if c == t:
+                                return False
+                            if c[0] == "not" and c[1] == t:
+                                return True
+                            if c[0] != "cmp" or c[1] not in _ops:
+                                continue
+                            for a, b, flip in ((c[2], c[3], False), (c[3], c[2], True)):
+                                if not is_const(b):
+                                    continue
+                                val = None
+                                if a == t and isinstance(b[1], (bytes, bool)):
+                                    val = b"" if isinstance(b[1], bytes) else False
+                                elif a[0] == "call" and a[2] == ("builtin", "len") and a[3] == (t,) and isinstance(b[1], int):
+                                    val = 0
+                                elif a[0] == "slice" and a[1] == t and isinstance(b[1], bytes):
+                                    val = b""
+                                if val is not None:
+                                    try:
+                                        return bool(_ops[c[1]](b[1], val) if flip else _ops[c[1]](val, b[1]))
+                                    except TypeError:
+                                        return None
+                        return None
+
+                    def taken_when_empty(gs):
+                        """The exit is taken whenever a consumer returned nothing: every test on the way that involves a consumer's result is decided
+                        in the exit's favour by the empty result; the other tests are those under which the consumer was called at all."""
+                        from .util import mentions as _m
+
+                        given = {lit for x in cons for lit in x.guards} | {(info.get("test"), True)}
+                        said = 0
+                        for c, pol in gs:
+                            if (c, pol) in given:
+                                continue
+                            v = when_empty(c)
+                            if v is None:
+                                if any(_m(c, lambda s_, t=x.term: s_ == t) for x in cons):
+                                    return False  # depends on what was consumed in a way an empty result does not settle
+                                return False  # an unrelated test stands between the empty result and the exit
+                            if v != pol:
+                                return False
+                            said += 1
+                        return said > 0
+
+                    # the loop test itself may be the exit: `while len(data := read(1)) == 1:` fails on an empty result
+                    tst_ = info.get("test")
+                    test_exits = tst_ is not None and any(when_empty(c) is False for c in (tst_[1] if tst_[0] == "and" else (tst_,)))
+                    if test_exits or any(dep_on_cons(getattr(e, "guards", ())) and taken_when_empty(getattr(e, "guards", ())) for e in exits):
                         witness = "each iteration consumes from a finite source and the loop exits when the consumer returns nothing / an incomplete item"
             # W3: probing loop ended by a designated exception
             if witness is None:
